@@ -265,5 +265,63 @@ class CheckedInLocks(Stream):
         return []
 
 
+class RealFindLinks(BazelStream):
+    """the wheels are real files in find-links directories below the lock's package and are solved by the real
+    FindLinksRepository (relative_to = the lock's directory, as the Bazel front-end builds it): the location lines
+    are the ones the real repository hands out"""
+    name = "bazel-real-find-links"
+    quick_n = 120
+    thorough_n = 6000
+    batch = 40
+
+    def generate(self, rng):
+        og = gen_bazel_og(rng)
+        dirs = og["wheel_dirs"] or [rng.choice(WHEEL_DIRS)]
+        og["wheel_dirs"] = dirs
+        for p in og["pins"]:
+            d = rng.choice(dirs)
+            fn = "%s-%s-py3-none-any.whl" % (p["name"].replace("-", "_"), p["version"])
+            p["link"] = [d, d + "/" + fn]
+        og["indexes"] = []
+        return {"og": og}
+
+    def _text(self, case):
+        from req_compile.repos.findlinks import FindLinksRepository
+        from req_compile.repos.multi import MultiRepository
+        from req_compile.compile import perform_compile
+        from req_compile.containers import RequirementsFile
+        from rv.bazelfe import load_private_compiler
+        from rv.core import digest
+        import contextlib
+        import io
+        og = case["og"]
+        GL.reset_caches()
+        base = os.path.join(self.tmp, digest(case) + "r")
+        ws = os.path.join(base, "ws", "third_party", "python")
+        os.makedirs(ws, exist_ok=True)
+        repos = []
+        for d in og["wheel_dirs"]:
+            full = os.path.normpath(os.path.join(ws, d))
+            os.makedirs(full, exist_ok=True)
+        for p in og["pins"]:
+            full = os.path.normpath(os.path.join(ws, p["link"][1]))
+            extras = sorted({e for r in p["reqs"] for e in ("x", "y") if 'extra == "%s"' % e in r})
+            with open(full, "wb") as f:
+                f.write(B.wheel_bytes(p["name"], p["version"], requires=p["reqs"], extras=extras))
+        for d in og["wheel_dirs"]:
+            repos.append(FindLinksRepository(os.path.normpath(os.path.join(ws, d)), relative_to=ws))
+        repo = MultiRepository(*repos) if len(repos) > 1 else repos[0]
+        ins = [RequirementsFile(i["name"], [GL.P(r) for r in i["reqs"]]) for i in og["inputs"]]
+        try:
+            with contextlib.redirect_stderr(io.StringIO()):
+                g, roots = perform_compile(ins, repo)
+            pc = load_private_compiler()
+            header = pc._HEADER.format(custom_compile_command="bazel run //:reqs.update", python="3.12.1", platform="Linux")
+            text = header + TL.write_text(g, roots, repo, ins, urls=True, hashes=True, multiline=True)
+        finally:
+            shutil.rmtree(base, ignore_errors=True)
+        return g, roots, text
+
+
 def streams():
-    return [BazelStream(), CheckedInLocks()]
+    return [BazelStream(), CheckedInLocks(), RealFindLinks()]
